@@ -4,8 +4,13 @@ from . import runner
 
 def checks():
     from .checks import ir
-    cs = [ir.C09()]
+    cs = [ir.C09(), ir.C10(), ir.C11(), ir.C12(), ir.C13()]
     return {c.pid: c for c in cs}
+
+
+def not_applicable():
+    """properties not claimed, with the reason"""
+    return {}
 
 
 def main(pid, tier, seed, replay):
